@@ -40,7 +40,7 @@ func FuzzEval(f *testing.F) {
 		if len(c.Expr) > 200 || len(c.Input) > 4000 {
 			return
 		}
-		c.Expr, c.Input = gen.BoundCase(c.Expr, c.Input)
+		c.Expr, c.Input = gen.BoundCase(c.Expr, gen.BoundInput(c.In, c.Input))
 		if (c.In == "yaml") && !c.NullIn && hx.YAMLCyclic(c.Input) {
 			return // the open cyclic-alias finding, excluded by construction (the rapid shards judge it through the binary)
 		}
